@@ -388,6 +388,60 @@ int main() {}
 '''
 
 
+RAISERS = ("std::rethrow_exception", "std::rethrow_if_nested", "std::throw_with_nested",
+           "std::nested_exception::rethrow_nested", "std::__throw_with_nested_impl")
+
+
+def c08h(ctx, tu, rule="C08.h"):
+    """The caller receives the exception the action threw: the dispatch function's handlers record it and rethrow it,
+    so nothing they run in between may let ANOTHER exception out.  In every library function the handlers call (the
+    agent's recorder and what it calls), each statement that raises on purpose - `throw;`, a rethrow helper of the
+    standard library - lies lexically inside a try block that has a catch-all handler (a handler's own body is not
+    covered by its sibling handlers)."""
+    n = 0
+    for fn in tu.find(A["dispatch"]):
+        if not fn.has_body:
+            continue
+        catches = [b for b in fn.rec["blocks"] if b.get("catch")]
+        todo = []
+        for cb in catches:
+            for bid in cfg.reach(fn, cb["id"]):
+                for e in fn.blocks[bid]["ev"]:
+                    if e["e"] == "call":
+                        for t in tu.targets(e):
+                            f2 = tu.fns.get(t)
+                            if f2 is not None and f2.has_body and f2.is_lib:
+                                todo.append(f2)
+        seen = set()
+        depth = {f.id: 0 for f in todo}
+        while todo:
+            f2 = todo.pop()
+            if f2.id in seen:
+                continue
+            seen.add(f2.id)
+            n += 1
+            tries = {t["id"]: t for t in f2.rec.get("tries", ())}
+            bad = None
+            for b, e in f2.events():
+                raising = (e["e"] == "throw") or (e["e"] == "call" and (erase(e.get("q") or "") in RAISERS or
+                                                                        (qe(e) or "") in RAISERS))
+                if raising:
+                    chain = e.get("try") or []
+                    if not any("..." in tries.get(i, {}).get("handlers", ()) for i in chain) and bad is None:
+                        bad = "%s at %s is not inside a try block with a catch-all handler" % (
+                            "`throw`" if e["e"] == "throw" else (e.get("q") or "").split("<")[0], short_loc(e.get("loc", "")))
+                if e["e"] == "call" and depth[f2.id] < 2:
+                    for t in tu.targets(e):
+                        f3 = tu.fns.get(t)
+                        if f3 is not None and f3.has_body and f3.is_lib and f3.id not in seen:
+                            depth.setdefault(f3.id, depth[f2.id] + 1)
+                            todo.append(f3)
+            ctx.ob(rule, f2.qe + " (called from the dispatch function's exception handler)", bad is None, pattern=f2.pat,
+                   unit=tu.name, inst=f2.q, detail="" if bad is None else "an exception raised while the thrown one is being "
+                   "recorded would replace it on its way to the caller: " + bad)
+    return n
+
+
 def c08g(ctx):
     os.makedirs(facts.gen_dir(), exist_ok=True)
     path = os.path.join(facts.gen_dir(), "c08_types.cpp")
@@ -423,6 +477,7 @@ def run(ctx):
         c08c(ctx, tu)
         n += c08d(ctx, tu)
         c08ef(ctx, tu)
+        c08h(ctx, tu)
         units.append({"unit": tu.name, "functions": len(tu.fns)})
     ctx.floor("C08.d functions evaluating WITH clauses", n, 2)
     c08g(ctx)
